@@ -107,6 +107,10 @@ func parseRoute(node *treeNode, path string, method string, info *RouteInfo) (pa
 //	`/`         will be matched by `/` first and then `/:param` or `/*`
 func findRoute(node *treeNode, path string, method string, params *Params) (info *RouteInfo) {
 	var length, left, right int = len(path), 0, 0
+	if length == 0 {
+		// an empty URL.Path (CONNECT or absolute-form request target) is routed like `/`
+		path, length = "/", 1
+	}
 	if length == 1 {
 		if n := node.methodNodeOrNil(method); n != nil {
 			// if `/` is matched by `/`, skip `/:param` and `/*`
